@@ -5,13 +5,14 @@ pub mod c08;
 pub mod c09;
 pub mod c10;
 pub mod c11;
+pub mod c13;
 pub mod c14;
 pub mod c15;
 pub mod c16;
 pub mod c17;
 
 pub fn all() -> Vec<&'static str> {
-    vec!["C07", "C08", "C09", "C10", "C11", "C14", "C15", "C16", "C17"]
+    vec!["C07", "C08", "C09", "C10", "C11", "C13", "C14", "C15", "C16", "C17"]
 }
 
 pub fn get(id: &str) -> Box<dyn Prop> {
@@ -22,6 +23,7 @@ pub fn get(id: &str) -> Box<dyn Prop> {
         "C09" => Box::new(c09::C09),
         "C10" => Box::new(c10::C10),
         "C11" => Box::new(c11::C11),
+        "C13" => Box::new(c13::C13),
         "C14" => Box::new(c14::C14),
         "C15" => Box::new(c15::C15),
         "C16" => Box::new(c16::C16),
